@@ -226,7 +226,7 @@ func amplifiers(c *vp.Child) {
 					var size uint64
 					fmt.Sscanf(o.Rets, "i:%d", &size)
 					// (only the templates that return `#` of a value they still hold)
-					if size > M && strings.Contains(text, "return #") && a.Name != "table.remove-loop" {
+					if size > M && (strings.Contains(text, "return #") || strings.HasPrefix(a.Name, "holds-")) && a.Name != "table.remove-loop" {
 						c.Violation("built-more-than-limit", a.Name, fmt.Sprintf("%s: the context ended 'done' having built a value of %d bytes (accounted memory %d, limit %d)", what, size, o.UsedMem, M), text)
 					}
 				}
